@@ -29,7 +29,11 @@ pub fn gen_world(seed: u64, idx: u64, s: &dyn SuiteOps) -> World {
     let mut long2 = long.clone();
     *long2.last_mut().unwrap() ^= 1;
     let creds: Vec<Vec<u8>> = vec![b"alice".to_vec(), b"bob".to_vec(), long, long2, b"alice ".to_vec()];
-    let ksf = gen_ksf(&mut g, fam, true);
+    let mut ksf = gen_ksf(&mut g, fam, true);
+    // a fifth of the SimKsf worlds stretch with an instance that ignores its input
+    if fam == crate::suite::KsfFamily::Sim && idx % 5 == 3 {
+        ksf = crate::suite::KsfArg::Sim(crate::seams::SIMKSF_CONSTANT | 1);
+    }
     // registrations: (setup, pw, cred); several share one client tape so that
     // separation has to come from the inputs, not from the nonce
     let shared_tape_start = b.tape("regstart-shared");
